@@ -25,7 +25,7 @@ try:
     sh("/verif/triage/mkoverlay.sh %s %s" % (wt, ov1))
     r1 = sh("cd %s && PYTHONPATH=%s timeout 300 /venv/bin/python %s/demo.py" % (wt, ov1, src))
     log["demo_with_change"] = (r1.returncode, r1.stdout[-300:])
-    rt = sh("cd %s && PYTHONPATH=%s timeout 900 /venv/bin/python -m pytest -p no:cacheprovider tests 2>&1 | tail -1" % (wt, ov1))
+    rt = sh("cd %s && PYTHONPATH=%s timeout 900 /venv/bin/python -m pytest -q -o addopts= -p no:cacheprovider tests 2>&1 | tail -1" % (wt, ov1))
     log["tests_with_change"] = rt.stdout.strip()
     ok = r0.returncode == 0 and r1.returncode != 0 and "36 passed" in rt.stdout and " failed" not in rt.stdout and ra.returncode == 0
     log["confirmed"] = ok
